@@ -362,6 +362,20 @@ def crosscheck(prop, root, seed, n):
             except Exception:
                 rec["error"] = traceback.format_exc()
             report[name] = rec
+    # native searches backing static obligations (decided on the AST): the real code is driven with generated inputs
+    for (p_, name, fn) in getattr(reg, "native_searches", []):
+        if p_ != prop:
+            continue
+        rec = {"evaluations": 0, "skipped_pre": 0, "failures": [], "noteval": 0, "distinct": 0, "error": None,
+               "sample": None}
+        try:
+            rng = random.Random("%s/%s" % (seed, name))
+            ev, fails = fn(root, rng, n)
+            rec["evaluations"] = rec["distinct"] = ev
+            rec["failures"] = list(fails)[:3]
+        except Exception:
+            rec["error"] = traceback.format_exc()
+        report["(specification):lemmas[%s]" % name] = rec
     return report
 
 
@@ -372,6 +386,18 @@ def replay(path, root):
     import re as _re
     mv = _re.search(r"\[v(\d+)\]", rp.get("obligation", ""))
     want_v = int(mv.group(1)) if mv else None
+    if rp["function"]["qual"] == "lemmas" and rp.get("kind") == "static":
+        tried = 0
+        for (p_, name, fn) in getattr(reg, "native_searches", []):
+            if p_ != rp["property"]:
+                continue
+            rng = random.Random("%s/%s" % (rp.get("seed", 0), name))
+            ev, fails = fn(root, rng, int(rp.get("search", 3000)))
+            tried += ev
+            if fails:
+                return {"reproduced": True, "how": "native search %r on the real code (%d inputs)" % (name, ev),
+                        "run": fails[0]}
+        return {"reproduced": False, "why": "native search found no failing input", "inputs_tried": tried}
     for c in cs:
         if c.rel == rp["function"]["rel"] and c.qual == rp["function"]["qual"]:
             vs = reg.contracts.get((c.rel, c.qual), [])
